@@ -2,6 +2,7 @@ import EncodingRs.Lemmas.Potential
 import EncodingRs.Lemmas.FamLaws
 import EncodingRs.Model.MaxLen
 import EncodingRs.Lemmas.EncMaxLenVariant
+import EncodingRs.Lemmas.MaxLenVariant
 /-!
 # C07 — worst-case buffer-length queries are sufficient in every reachable state
 
@@ -132,6 +133,38 @@ example : (call userDefinedFam .utf16 () [0x41, 0x80] true .unlimited).res = .in
   · intro l a h
     have : (call userDefinedFam .utf16 () [0x41, 0x80] true .unlimited).res = .inputEmpty := by decide
     rw [this] at h; cases h
+
+/-! ## Decoder queries: all 13 variant decoders, all three queries, every reachable state -/
+
+open EncodingRs.Lemmas.MaxLenVariant in
+/-- **without replacement** (`decode_to_utf16_without_replacement` with `max_utf16_buffer_length`,
+`decode_to_utf8_without_replacement` with `max_utf8_buffer_length_without_replacement` — and a fortiori
+`max_utf8_buffer_length`): in every state `s` reached from the initial state by any history of calls
+(any sinks, chunks, stop policies), a destination of at least the queried size is never reported full. -/
+theorem decoder_raw_sufficient (q : Query) (v : Gen.Variant) (s : (famOfVariant v).σ) (hr : Reach v s)
+    (src : List Nat) (last : Bool) (budget : Budget) (cap Q : Nat) (hb : ∀ b ∈ src, b < 256)
+    (hq : variantMax q v s src.length = some Q) (hcap : Q ≤ cap)
+    (hadm : Admissible (famOfVariant v) (sinkOf q) cap (call (famOfVariant v) (sinkOf q) s src last budget)) :
+    (call (famOfVariant v) (sinkOf q) s src last budget).res ≠ .outputFull :=
+  reachable_raw_sufficient q v s hr src last budget cap Q hb hq hcap hadm
+
+open EncodingRs.Lemmas.MaxLenVariant in
+/-- **with replacement** (`decode_to_utf16` with `max_utf16_buffer_length`, `decode_to_utf8` with
+`max_utf8_buffer_length`), however many malformed sequences are replaced -/
+theorem decoder_repl_sufficient (q : Query) (hq2 : q = .utf16 ∨ q = .utf8) (v : Gen.Variant)
+    (s : (famOfVariant v).σ) (hr : Reach v s) (src : List Nat) (last : Bool) (fuel : Nat)
+    (budgets : List Budget) (cap Q : Nat) (t : ReplRes (famOfVariant v).σ) (hb : ∀ b ∈ src, b < 256)
+    (hq : variantMax q v s src.length = some Q) (hcap : Q ≤ cap)
+    (hadm : ReplAdmissible (famOfVariant v) (sinkOf q) last fuel s src budgets cap)
+    (hrun : replLoop (famOfVariant v) (sinkOf q) last fuel s src budgets = some t) :
+    t.res ≠ .outputFull :=
+  reachable_repl_sufficient q hq2 v s hr src last fuel budgets cap Q t hb hq hcap hadm hrun
+
+open EncodingRs.Lemmas.MaxLenVariant in
+/-- the decoder queries return the exact value, or `none` exactly when the arithmetic exceeds `usize::MAX` -/
+theorem decoder_query_exact (q : Query) (v : Gen.Variant) (s : (famOfVariant v).σ) (n : Nat) :
+    variantMax q v s n = if variantOvf q v s n ≤ usizeMax then some (variantNat q v s n) else none :=
+  variantMax_exact q v s n
 
 /-! ## Encoder queries (all encoder families, both source forms, every state) -/
 
